@@ -200,6 +200,27 @@ def escBlank : List Byte → List Byte
   | [] => []
   | c :: cs => if isBlank c then 92 :: c :: escBlank cs else c :: escBlank cs
 
+/-! the documented flag-string form: `-` flag-byte content, blanks in the content escaped, flags joined by one blank -/
+
+structure Flag where
+  c : Byte
+  content : List Byte
+deriving DecidableEq, Repr
+
+def Flag.bytes (f : Flag) : List Byte := 45 :: f.c :: f.content
+def Flag.render (f : Flag) : List Byte := 45 :: f.c :: escBlank f.content
+
+def joinFlags : List Flag → List Byte
+  | [] => []
+  | [f] => f.render
+  | f :: g :: fs => f.render ++ 32 :: joinFlags (g :: fs)
+
+/-- the decidable well-formedness predicate of the round-trip law -/
+def Flag.WF (f : Flag) : Prop :=
+  f.content.head? ≠ some 45 ∧ f.content.getLast? ≠ some 92 ∧ trimSpace f.bytes = f.bytes
+
+instance (f : Flag) : Decidable f.WF := by unfold Flag.WF; infer_instance
+
 /-! ## buildtags.parseBuildTags -/
 
 def isTagSep (c : Char) : Bool := c = ',' || c = ' '
